@@ -40,6 +40,17 @@ def who_rules(facts, rep):
                 good = bool(EXTRACTORS.search(f.path))
                 ok &= rep.check(good, rule, "%s@%s" % (t["callee"].split("::")[-1], f.path.split("::")[-1] if good else f.path), where(f, t["span"]),
                                 "filesystem mutation inside an extractor", "filesystem-mutating call %s outside the extractors" % t["callee"])
+    # ... and only with the three operations extraction needs.  Directory creation is `create_dir_all`: it succeeds when the
+    # directory already exists (an archive may list a file before its directory, list a directory twice, or be extracted over an
+    # earlier extraction), which `create_dir` / `DirBuilder` without `recursive` do not.  Nothing is removed, renamed or linked.
+    IDEM = r"^std::fs::(create_dir_all|set_permissions)$|^std::fs::File::create$"
+    for f in facts.fns:
+        if not EXTRACTORS.search(f.path):
+            continue
+        other = sorted({t["callee"] for bi, t in f.calls() if callee_matches(t, FS_MUT) and not re.search(IDEM, t["callee"])})
+        ok &= rep.check(not other, rule, "only-idempotent-creates@%s" % f.path.split("::")[-1], where(f, f.span),
+                        "extractor mutates the filesystem only through create_dir_all / File::create / set_permissions",
+                        "extractor %s also uses %s: not idempotent on an existing tree (a safe, consistent archive can now fail to extract) or destructive" % (f.path.split("::")[-1], other))
     rep.count("fs_mutating_sites", n)
     rep.floor(rule, 8, "create_dir_all x4, File::create x2, set_permissions x2")
     return ok
